@@ -159,16 +159,25 @@ def check_pfba(ctx) -> None:
     problems: Dict[str, str] = {}
     for direction in ("max", "min"):
         for frac in (1.0, 0.4, 0.0):
-            for given in (None, {"R_c": 2.0}):
+            for given in (None, {"R_c": 2.0}, "stale constraint"):
                 for subset in (None, ["R_b", "R_d"]):
                     model = _model(direction)
                     it = _interp(ctx)
                     kwargs: Dict[str, Any] = {"fraction_of_optimum": frac}
+                    stale_constraint = given == "stale constraint"
+                    if stale_constraint:
+                        if subset is not None:
+                            continue
+                        given = None
+                        # the user fixed the objective at another level before (the public fix_objective_as_constraint
+                        # outside a context): a constraint of the name the function uses is already there
+                        old = Cons(Lin(dict(model.solver.objective.expression.terms)), lb=0.123 if direction == "max" else None, ub=None if direction == "max" else 0.123, name=f"fixed_objective_{model.solver.objective.name}")
+                        model.add_cons_vars([old])
                     if given is not None:
                         kwargs["objective"] = {model.reactions.get_by_id(k): v for k, v in given.items()}
                     if subset is not None:
                         kwargs["reactions"] = subset
-                    what = f"pfba({direction} problem, fraction_of_optimum={frac:g}{', objective=given' if given else ''}{', reactions=subset' if subset else ''})"
+                    what = f"pfba({direction} problem, fraction_of_optimum={frac:g}{', objective=given' if given else ''}{', reactions=subset' if subset else ''}{', on a model whose objective was fixed at another level before' if stale_constraint else ''})"
                     try:
                         sol = _run(what, lambda: it.call(pf, [model], kwargs))
                     except EvalRaise as exc:
@@ -479,3 +488,10 @@ def run(ctx) -> None:
             chk(ctx)
         except AnalysisError as exc:
             ctx.defer(str(exc))
+    # pfba(objective=...) / the objectives the secondary problems install go through set_objective: that it leaves
+    # exactly the given coefficients and keeps the direction is C04.objective (shared; the symbolic model of the clauses
+    # above plays `model.objective = ...` natively)
+    from . import objform
+
+    ctx.rule("C04.objective", "finite evaluation: set_objective leaves exactly the given coefficients in the solver objective and keeps its direction (shared with C04)", floor=1)
+    ctx.guard(objform.check_set_objective, ctx, "C04.objective")
